@@ -21,6 +21,7 @@ import (
 	"runtime/debug"
 	"sort"
 	"strings"
+	"sync"
 	"testing"
 	"time"
 
@@ -30,13 +31,17 @@ import (
 )
 
 func TestMain(m *testing.M) {
-	// Every forced collection wakes all Ps; with many Ps the run is dominated by scheduler
-	// lock contention (measured: 68 s per shard on 16 Ps, 7 s on 2).
+	// runtime.GC yields after every swept span and every forced collection wakes all Ps: with
+	// many Ps the run is dominated by scheduler lock contention (measured CPU per shard of 300
+	// histories: 53 s on 16 Ps, 25 s on 2, 7 s on 1). Nothing here needs parallelism: suspended
+	// calls are blocked goroutines, finalizers run while the driving goroutine waits for them.
 	if os.Getenv("GOMAXPROCS") == "" {
-		runtime.GOMAXPROCS(2)
+		runtime.GOMAXPROCS(1)
 	}
 	evid.Main(m, "C09")
 }
+
+var siblingNote sync.Once
 
 const knownID = "C09-dangling-funcref-private-table"
 
@@ -110,11 +115,55 @@ func property(t *rapid.T) {
 	}
 	for l, n := range res.Labels {
 		evid.Label(l, int64(n))
+		if strings.Contains(l, "source module must be compiled") {
+			siblingNote.Do(func() {
+				evid.Note("side observation, not a C09 violation (the statement speaks about LIVE instances): two CompiledModules made from identical bytes share one engine cache entry keyed by module ID; closing one of them (CompiledModule.Close, or closing an instance that InstantiateWithConfig created from the same bytes) makes InstantiateModule of the other fail with %q, on both engines. Instances that already exist keep answering like the twin. Minimal input: compile(bytes) twice, close the first, InstantiateModule(the second).", strings.TrimPrefix(l, "create-failed: "))
+			})
+		}
 	}
 	evid.Label("probe-calls", int64(res.probes))
 	evid.Label("steps", int64(len(h.Steps)))
 	if m.nontrivial {
 		evid.Sample("nontrivial-history", 2, h)
+	}
+}
+
+func TestKnownDanglingFuncref(t *testing.T) {
+	if evid.ReplayPath() != "" || os.Getenv("C09_CHILD") != "" {
+		t.Skip()
+	}
+	if sh, _ := evid.Shard(); sh != 0 {
+		t.Skip()
+	}
+	for _, kv := range knownVariants() {
+		for _, eng := range []string{"interpreter", "compiler"} {
+			h := kv.hist(eng)
+			// self-test of the input: with the collector switched off the history must hold
+			if out, died := runIsolated(h, true); died != "" || out.Violation != "" || out.Harness != "" {
+				evid.Incomplete("known-finding input %q does not hold even without gc (%s): %s %s %s", kv.name, eng, died, out.Violation, out.Harness)
+				t.Errorf("known-finding input %q broken: %s %s %s", kv.name, died, out.Violation, out.Harness)
+				continue
+			}
+			out, died := runIsolated(h, false)
+			switch {
+			case out.Harness != "":
+				evid.Incomplete("known-finding input %q: harness error (%s): %s", kv.name, eng, out.Harness)
+				t.Errorf("harness: %s", out.Harness)
+			case died != "" || out.Violation != "":
+				msg := died
+				if msg == "" {
+					msg = strings.SplitN(out.Violation, "\n", 2)[0]
+				}
+				evid.Label("known-finding-reproduced: "+kv.name+" ["+eng+"]", 1)
+				if evid.Finding(knownID, "known-dangling-funcref", h, "[%s; %s] the function reference dangles after its instance is closed, dropped and collected: %s", eng, kv.name, msg) {
+					t.Errorf("%s %s: %s", eng, kv.name, msg)
+				}
+			case kv.canonical:
+				evid.Note("known finding %s no longer reproduces on the %s engine", knownID, eng)
+			default:
+				evid.Label("known-finding-variant-holds: "+kv.name+" ["+eng+"]", 1)
+			}
+		}
 	}
 }
 
@@ -223,51 +272,52 @@ func hist(engine string, specs []modSpec, steps ...step) *history {
 	return &history{Cfg: config{Engine: engine}, Specs: specs, Steps: steps}
 }
 
-// knownHistory is the specific input of the open finding: instance i0 (named "a") hands out
-// ref.func f0, instance i1 stores it in its private table, i0 is closed, the harness drops
-// it, the collector runs, and i1 calls through the slot.
-func knownHistory(engine string) *history {
-	return hist(engine, []modSpec{{ID: 1, Elem: -1}, {ID: 2, Elem: -1}},
-		step{Op: "compile", Spec: 0}, step{Op: "compile", Spec: 1},
-		step{Op: "inst", CM: 0, Name: "a"}, step{Op: "inst", CM: 1, Name: "b"},
-		step{Op: "move", Inst: 0, To: 1, Src: "func", K: 0, Dst: "slot", DTbl: 1, DSlot: 0},
-		step{Op: "close", Inst: 0}, step{Op: "drop", Inst: 0}, step{Op: "gc"},
-		step{Op: "call", Inst: 1, Fn: "call1", Arg: 0})
+type knownVariant struct {
+	name      string
+	canonical bool
+	hist      func(engine string) *history
 }
 
-func TestKnownDanglingFuncref(t *testing.T) {
-	if evid.ReplayPath() != "" || os.Getenv("C09_CHILD") != "" {
-		t.Skip()
+// knownVariants are the specific inputs of the open finding. The canonical one: instance i0
+// (named "a") hands out ref.func f0, instance i1 stores it in its private table, i0 is closed,
+// the harness drops it, the collector runs, and i1 calls through the slot. The others show how
+// wide the class is (they all reach the same mechanism: a reference is an address the
+// collector does not see, and nothing else keeps its instance reachable).
+func knownVariants() []knownVariant {
+	mv := func(from, to int, k int, dst string, dtbl, dslot int) step {
+		return step{Op: "move", Inst: from, To: to, Src: "func", K: k, Dst: dst, DTbl: dtbl, DSlot: dslot}
 	}
-	if sh, _ := evid.Shard(); sh != 0 {
-		t.Skip()
+	base := []step{{Op: "compile", Spec: 0}, {Op: "compile", Spec: 1}, {Op: "inst", CM: 0, Name: "a"}, {Op: "inst", CM: 1, Name: "b"}}
+	cdg := func(i int) []step { return []step{{Op: "close", Inst: i}, {Op: "drop", Inst: i}, {Op: "gc"}} }
+	mk := func(specs []modSpec, parts ...[]step) func(string) *history {
+		var steps []step
+		for _, p := range parts {
+			steps = append(steps, p...)
+		}
+		return func(engine string) *history { return hist(engine, specs, steps...) }
 	}
-	for _, eng := range []string{"interpreter", "compiler"} {
-		h := knownHistory(eng)
-		// self-test of the input: without the gc steps the history must hold
-		if out, died := runIsolated(h, true); died != "" || out.Violation != "" || out.Harness != "" {
-			evid.Incomplete("known-finding input does not hold even without gc (%s): %s %s %s", eng, died, out.Violation, out.Harness)
-			t.Errorf("known-finding input broken: %s %s %s", died, out.Violation, out.Harness)
-			continue
-		}
-		out, died := runIsolated(h, false)
-		switch {
-		case out.Harness != "":
-			evid.Incomplete("known-finding input: harness error (%s): %s", eng, out.Harness)
-			t.Errorf("harness: %s", out.Harness)
-		case died != "" || out.Violation != "":
-			msg := died
-			if msg == "" {
-				msg = out.Violation
-			}
-			if evid.Finding(knownID, "known-dangling-funcref", h, "[%s] a function reference stored in another instance's private table dangles after its instance is closed, dropped and collected: %s", eng, msg) {
-				t.Errorf("%s: %s", eng, msg)
-			}
-		default:
-			evid.Note("known finding %s no longer reproduces on the %s engine", knownID, eng)
-		}
+	plain := []modSpec{{ID: 1, Elem: -1}, {ID: 2, Elem: -1}}
+	return []knownVariant{
+		{"reference in another instance's private table", true,
+			mk(plain, base, []step{mv(0, 1, 0, "slot", 1, 0)}, cdg(0), []step{{Op: "call", Inst: 1, Fn: "call1", Arg: 0}})},
+		{"reference in another instance's private funcref global", false,
+			mk(plain, base, []step{mv(0, 1, 0, "glob", 0, 0)}, cdg(0), []step{{Op: "call", Inst: 1, Fn: "callg"}})},
+		{"reference in a table exported by a and imported by b, defining instance c neither exports nor imports it", false,
+			mk([]modSpec{{ID: 1, Elem: -1, ExpTab: true}, {ID: 2, Elem: -1, TabFrom: "a"}, {ID: 3, Elem: -1}},
+				base, []step{{Op: "compile", Spec: 2}, {Op: "inst", CM: 2, Name: "c"}, mv(2, 0, 0, "slot", 0, 2)}, cdg(2),
+				[]step{{Op: "call", Inst: 1, Fn: "call0", Arg: 2}})},
+		{"ref.func of an imported function, handed on by the importer b to c's private table, b closed", false,
+			mk([]modSpec{{ID: 1, Elem: -1}, {ID: 2, Elem: -1, ImpFrom: "a"}},
+				base, []step{{Op: "inst", CM: 0, Name: "c"}, mv(1, 2, 2, "slot", 1, 0)}, cdg(1),
+				[]step{{Op: "call", Inst: 2, Fn: "call1", Arg: 0}})},
+		{"reference in a's exported funcref global imported by b, a closed (the compiler keeps a reachable through the imported global)", false,
+			mk([]modSpec{{ID: 1, Elem: -1, ExpGlob: true}, {ID: 2, Elem: -1, GlobFrom: "a"}},
+				base, []step{mv(0, 0, 0, "glob", 0, 0)}, cdg(0), []step{{Op: "call", Inst: 1, Fn: "callg"}})},
 	}
 }
+
+// knownHistory is the canonical input of the open finding.
+func knownHistory(engine string) *history { return knownVariants()[0].hist(engine) }
 
 func TestReplay(t *testing.T) {
 	p := evid.ReplayPath()
